@@ -19,6 +19,7 @@ RULE = ('Families: (1) exhaustive small scope: every (parent expression kind, sl
         'Oracle: strict_ast(parse(S), parse(unparse(parse(S)))) and strict_ast(parse(S), parse(minify(S, all transforms off))) '
         'with constants compared by type+value (float/complex by repr). Non-trivial: tree has >=5 nodes and contains an '
         'operator nesting, a non-trivial constant, an f-string or a compound statement. Distinct = sha256(source, interpreter).')
+RULE += ' Half of the fleet programs are printed with explicit parentheses around tuples, walrus and yield so that old grammars can read them; about 190 fixed version-sensitive spellings run in every interpreter.'
 ASSUMPTIONS = ['the interpreter\'s own ast.parse defines the tree', 'Constant.kind (u prefix), type comments and positions are not structure',
                'AST depth bounded below the recursion limit of the recursive visitors']
 
